@@ -2281,28 +2281,30 @@ class RawAlgorithmsMixIn:
         D,P,M,N = A_shp
 
 
-        E = numpy.zeros((P,N,N))
         tmp1 = numpy.zeros((D,P,N,N), dtype=float)
         tmp2 = numpy.zeros((D,P,N,N), dtype=float)
 
-
-        for p in range(P):
-            lam0 = numpy.diag(Lam_data[0,p])
-
-            E[p] += lam0;  E[p] = (E[p].T - lam0).T
-
-        with numpy.errstate(divide='ignore'):
-            H = 1./E
+        # STEP 1: H = 1/(lam_n - lam_m) in Taylor arithmetic for n, m in different diagonal
+        # blocks (zero inside a block); inblock marks the entries of L that are outputs at all
+        H = numpy.zeros((D,P,N,N), dtype=float)
+        Id = numpy.zeros((D,1))
+        Id[0] = 1.
+        inblock = numpy.zeros((P,N,N), dtype=bool)
         for p in range(P):
             b = b_list[p]
             for nb in range(b.size-1):
-                H[p, b[nb]:b[nb+1], b[nb]:b[nb+1] ] = 0
+                inblock[p, b[nb]:b[nb+1], b[nb]:b[nb+1] ] = True
+            lam = numpy.array([numpy.diag(Lam_data[d,p]) for d in range(D)]).reshape((D,1,N))
+            for m in range(N):
+                for n in range(N):
+                    if not inblock[p,m,n]:
+                        cls._truediv(Id, lam[:,:,n] - lam[:,:,m], out = H[:,p:p+1,m,n])
 
-
-        # STEP 2: compute Lbar +  H * Q^T Qbar
+        # STEP 2: compute Lbar +  H * Q^T Qbar  (only the diagonal blocks of Lbar: the other
+        # entries of L are structurally zero)
         cls._dot(cls._transpose(Q_data), Qbar_data, out = tmp1)
-        tmp1[...] *= H[...]
-        tmp1[...] += Lambar_data[...]
+        tmp1 = cls._mul(tmp1, H)
+        tmp1[...] += Lambar_data * inblock
 
         # STEP 3: compute Q ( Lbar +  H * Q^T Qbar ) Q^T
         cls._dot(Q_data, tmp1, out = tmp2)
